@@ -4,6 +4,7 @@ import (
 	"encoding/json"
 	"fmt"
 	"math/rand"
+	"reflect"
 	"sort"
 	"strings"
 
@@ -82,6 +83,20 @@ func runC31(r *lib.Run) {
 				o2 := opt
 				o2.Density = 0.3
 				T = lib.NewGen(cfg, r.Seed+9090, i, o2).Tree()
+			}
+			// some leaf-lists of the source are set but empty: the document mentions them as
+			// [] and that replaces whatever the existing tree holds
+			if i%2 == 0 {
+				erng := rand.New(rand.NewSource(r.Seed*59 + int64(i)))
+				for _, nd := range cfg.Nodes(T) {
+					for _, f := range nd.Info.Fields {
+						fv := nd.V.Elem().Field(f.Idx)
+						if f.Kind == lib.KLeafList && fv.Len() > 0 && erng.Intn(3) == 0 {
+							fv.Set(reflect.MakeSlice(fv.Type(), 0, 0))
+							r.Hit("source:empty-leaf-list")
+						}
+					}
+				}
 			}
 			oe, ot := cfg.Observe(E), cfg.Observe(T)
 			both := false
